@@ -103,6 +103,7 @@ inductive Op where
   | ff (fid : Nat)       -- ForceFlush(ctx) in its own goroutine
   | sd (k : Nat)         -- Shutdown(ctx) in its own goroutine
   | timeout              -- wait until the per-export timeout of the call in progress has fired
+  | cancel (fid : Nat)   -- the context of ForceFlush `fid` expires
   | pemit (id : Nat)     -- OnEmit that parks right after its stopped check (hook)
   | remit (id : Nat)     -- release it
   | pff (fid : Nat)      -- ForceFlush that parks right after its stopped check (hook)
@@ -130,6 +131,7 @@ def applyOp (s : St) : Op → St
   | .ff fid => (step s (.ffCall fid)).getD s
   | .sd k => (step s (.sdCall k)).getD s
   | .timeout => (step s .eTimeout).getD s
+  | .cancel fid => (step s (.ffCancel fid)).getD s
   | .pemit id => (step s (.accept id)).getD s
   | .pff fid => (step s (.ffCall fid)).getD s
   | .psd k => (step s (.sdCall k)).getD s
@@ -156,6 +158,10 @@ theorem applyOp_reachable {cap batch buf : Nat} (s : St) (op : Op)
     | some s' => simpa [hs] using Reachable.step _ h hs
   case timeout =>
     cases hs : step s .eTimeout with
+    | none => simpa [hs] using h
+    | some s' => simpa [hs] using Reachable.step _ h hs
+  case cancel fid =>
+    cases hs : step s (.ffCancel fid) with
     | none => simpa [hs] using h
     | some s' => simpa [hs] using Reachable.step _ h hs
   case pemit id =>
